@@ -87,7 +87,7 @@ class Check:
                 traceback.print_exc()
 
     def finish(self):
-        known = [k for k in load_known() if k.get('property') == self.pid]
+        known = [k for k in load_known() if k.get('property') == self.pid or self.pid in k.get('also_reported_under', [])]
         out = []
         nviol = 0
         nknown = 0
